@@ -1,2 +1,950 @@
-(* StaticEquiv — reserved. *)
+(* StaticEquiv — C01, M1 = S, stage 1 (static tries) and the reusable single-step
+   lemmas about the state machine lbp (Lookup.v).
+   Owner: proof agent p-equiv. *)
 From FoxBase Require Import Bytes.
+From FoxRoute Require Import Node Lookup Spec SpecFacts Tree Corr.
+Open Scope char_scope.
+
+(* ------------------------------------------------------------------ *)
+(* generic list facts                                                  *)
+(* ------------------------------------------------------------------ *)
+Lemma skipn_cons_nth {A} : forall i (l : list A) x r,
+  skipn i l = x :: r -> nth_error l i = Some x /\ skipn (S i) l = r /\ i < List.length l.
+Proof.
+  induction i as [|i IH]; intros [|y l] x r H; simpl in *; try discriminate.
+  - inversion H; subst. repeat split; auto. lia.
+  - destruct (IH l x r H) as (H1 & H2 & H3). repeat split; auto. lia.
+Qed.
+
+Lemma skipn_nil_len {A} : forall i (l : list A), skipn i l = [] -> List.length l <= i.
+Proof.
+  induction i as [|i IH]; intros [|y l] H; simpl in *; try discriminate; try lia.
+  apply IH in H. lia.
+Qed.
+
+Lemma skipn_skipn' {A} : forall a b (l : list A), skipn a (skipn b l) = skipn (a + b) l.
+Proof.
+  intros a b; revert a. induction b as [|b IH]; intros a l.
+  - simpl. f_equal. lia.
+  - destruct l as [|x l]; simpl.
+    + rewrite !skipn_nil. reflexivity.
+    + rewrite IH. replace (a + S b) with (S (a + b)) by lia. reflexivity.
+Qed.
+
+(* ------------------------------------------------------------------ *)
+(* induction on nodes                                                  *)
+(* ------------------------------------------------------------------ *)
+Section NodeInd.
+  Variable P : node -> Prop.
+  Hypothesis H : forall k r ch, Forall P ch -> P (Node k r ch).
+  Fixpoint node_ind' (n : node) : P n :=
+    match n with
+    | Node k r ch =>
+        H k r ch ((fix go (l : list node) : Forall P l :=
+                     match l with
+                     | [] => Forall_nil P
+                     | x :: l' => Forall_cons x (node_ind' x) (go l')
+                     end) ch)
+    end.
+End NodeInd.
+
+(* ------------------------------------------------------------------ *)
+(* static bytes, static trees                                          *)
+(* ------------------------------------------------------------------ *)
+Definition sbyte (c : ascii) : bool := negb (Ascii.eqb c "{") && negb (Ascii.eqb c "*").
+Definition sbytes (b : bytes) : bool := forallb sbyte b.
+
+(* every key in the subtree is free of '{' and '*' *)
+Inductive stree : node -> Prop :=
+| STree k r ch : sbytes k = true -> Forall stree ch -> stree (Node k r ch).
+
+Lemma stree_inv k r ch : stree (Node k r ch) -> sbytes k = true /\ Forall stree ch.
+Proof. inversion 1; auto. Qed.
+
+(* first child whose key starts with c: what getEdge returns *)
+Fixpoint first_child (c : ascii) (l : list node) : option node :=
+  match l with
+  | [] => None
+  | x :: r => if starts_with c (nkey x) then Some x else first_child c r
+  end.
+
+Lemma find_child_from_first c : forall l i,
+  match find_child_from i c l with
+  | Some j => exists k, j = i + k /\ nth_error l k = first_child c l /\ first_child c l <> None
+  | None => first_child c l = None
+  end.
+Proof.
+  induction l as [|x l IH]; intros i; simpl; auto.
+  destruct (starts_with c (nkey x)).
+  - exists 0. repeat split; [lia|discriminate].
+  - specialize (IH (S i)). destruct (find_child_from (S i) c l); auto.
+    destruct IH as (k & -> & H1 & H2). exists (S k). repeat split; auto. lia.
+Qed.
+
+Lemma find_child_first n c :
+  match find_child n c with
+  | Some j => nth_error (nchildren n) j = first_child c (nchildren n) /\ first_child c (nchildren n) <> None
+  | None => first_child c (nchildren n) = None
+  end.
+Proof.
+  unfold find_child. pose proof (find_child_from_first c (nchildren n) 0) as H.
+  destruct (find_child_from 0 c (nchildren n)); auto.
+  destruct H as (k & -> & H1 & H2). simpl. auto.
+Qed.
+
+Lemma first_child_in c : forall l x, first_child c l = Some x -> In x l /\ starts_with c (nkey x) = true.
+Proof.
+  induction l as [|y l IH]; intros x; simpl; [discriminate|].
+  destruct (starts_with c (nkey y)) eqn:E.
+  - intros [= <-]. auto.
+  - intros H. apply IH in H. tauto.
+Qed.
+
+Lemma last_index_none c : forall l i acc,
+  (forall x, In x l -> starts_with c (nkey x) = false) -> last_index_from i c l acc = acc.
+Proof.
+  induction l as [|x l IH]; intros i acc Hn; simpl; auto.
+  rewrite (Hn x (or_introl eq_refl)). apply IH. intros y Hy. apply Hn. right; exact Hy.
+Qed.
+
+Lemma sbytes_no_start c k : sbytes k = true -> sbyte c = false -> starts_with c k = false.
+Proof.
+  destruct k as [|x k]; simpl; auto. intros H Hc.
+  apply andb_prop in H. destruct H as [Hx _].
+  destruct (Ascii.eqb_spec x c); subst; congruence.
+Qed.
+
+Lemma stree_no_param n : stree n -> param_child_index n = None /\ wildcard_child_index n = None.
+Proof.
+  intros Hs. destruct n as [k r ch]. apply stree_inv in Hs. destruct Hs as [_ Hch].
+  unfold param_child_index, wildcard_child_index. simpl.
+  rewrite Forall_forall in Hch.
+  split; apply last_index_none; intros x Hx; specialize (Hch x Hx); destruct x as [kx rx cx];
+    apply stree_inv in Hch; destruct Hch as [Hk _]; simpl; apply sbytes_no_start; auto.
+Qed.
+
+(* ------------------------------------------------------------------ *)
+(* single-step lemmas about lbp                                        *)
+(* ------------------------------------------------------------------ *)
+(* s' differs from s at most in the trailing-slash bookkeeping and the two counters *)
+Definition same_core (s s' : st) : Prop :=
+  cur s' = cur s /\ par s' = par s /\ cm s' = cm s /\ cmn s' = cmn s /\ sks s' = sks s /\ ps s' = ps s.
+(* no direct-looking result is hidden in the tsr registers *)
+Definition tinv (s : st) : Prop := tsr s = false -> tn s = None.
+
+Lemma same_core_refl s : same_core s s.
+Proof. repeat split. Qed.
+
+Lemma same_core_trans a b c : same_core a b -> same_core b c -> same_core a c.
+Proof. unfold same_core. intuition congruence. Qed.
+
+Lemma set_tsr_core lazy s n tp : same_core s (set_tsr lazy s n tp).
+Proof. repeat split. Qed.
+Lemma set_tsr_tinv lazy s n tp : tinv (set_tsr lazy s n tp).
+Proof. unfold tinv; simpl; discriminate. Qed.
+
+Definition zero_cnt (s : st) : st :=
+  {| cur := cur s; par := par s; cm := cm s; cmn := cmn s; pcnt := 0; pkc := 0; sks := sks s;
+     ps := ps s; tsr := tsr s; tn := tn s; tps := tps s |}.
+
+Lemma zero_cnt_core s : same_core s (zero_cnt s).
+Proof. repeat split. Qed.
+
+Ltac core_tac :=
+  repeat match goal with
+  | |- context [match ?x with _ => _ end] => destruct x
+  end;
+  repeat split; auto; try (unfold tinv; simpl; intros; congruence).
+
+(* PAfter without a direct hit goes to Backtrack *)
+Lemma after_fail f path lazy s :
+  is_leaf (cur s) && Nat.eqb (cm s) (List.length path) && Nat.eqb (cmn s) (List.length (nkey (cur s))) = false ->
+  tinv s ->
+  exists s', lbp (S f) path lazy PAfter s = lbp f path lazy PBack s'
+             /\ same_core s s' /\ tinv s' /\ pcnt s' = 0 /\ pkc s' = 0.
+Proof.
+  intros Hno Ht. destruct s as [cu pa cm0 cmn0 pc pk sk ps0 ts tn0 tp]. simpl in Hno. unfold tinv in Ht; simpl in Ht.
+  cbn [lbp cur par cm cmn pcnt pkc sks ps tsr tn tps].
+  destruct (is_leaf cu) eqn:El; cbn [negb].
+  - destruct (Nat.eqb cm0 (List.length path)) eqn:E1; cbn [andb] in Hno |- *.
+    + rewrite Hno. cbn [andb].
+      destruct (Nat.ltb cmn0 (List.length (nkey cu))).
+      * eexists; split; [reflexivity|]. unfold par_is_leaf; cbn [par tsr]. core_tac.
+      * destruct (Nat.ltb cm0 (List.length path)); cbn [andb];
+          eexists; (split; [reflexivity|]); core_tac.
+    + destruct (Nat.ltb cm0 (List.length path) && Nat.eqb cmn0 (List.length (nkey cu)));
+        eexists; (split; [reflexivity|]); core_tac.
+  - eexists; split; [reflexivity|]. unfold par_is_leaf; cbn [par tsr]. core_tac.
+Qed.
+
+Lemma after_found f path lazy s :
+  is_leaf (cur s) = true -> cm s = List.length path -> cmn s = List.length (nkey (cur s)) ->
+  lbp (S f) path lazy PAfter s = Found (Some (cur s)) false (ps s) (tps s).
+Proof.
+  intros Hl H1 H2. destruct s as [cu pa cm0 cmn0 pc pk sk ps0 ts tn0 tp]. simpl in *.
+  cbn [lbp cur par cm cmn pcnt pkc sks ps tsr tn tps]. rewrite Hl. subst. rewrite !Nat.eqb_refl. reflexivity.
+Qed.
+
+Lemma back_nil f path lazy s : sks s = [] ->
+  lbp (S f) path lazy PBack s = Found (tn s) (tsr s) (ps s) (tps s).
+Proof. intros H. cbn [lbp]. rewrite H. reflexivity. Qed.
+
+Lemma walk_lt f path lazy s : cm s < List.length path ->
+  lbp (S f) path lazy PWalk s = lbp f path lazy (PInner 0)
+    {| cur := cur s; par := par s; cm := cm s; cmn := 0; pcnt := pcnt s; pkc := pkc s; sks := sks s;
+       ps := ps s; tsr := tsr s; tn := tn s; tps := tps s |}.
+Proof. intros H. cbn [lbp]. apply Nat.ltb_lt in H. rewrite H. reflexivity. Qed.
+
+Lemma walk_ge f path lazy s : List.length path <= cm s ->
+  lbp (S f) path lazy PWalk s = lbp f path lazy PAfter s.
+Proof. intros H. cbn [lbp]. apply Nat.ltb_ge in H. rewrite H. reflexivity. Qed.
+
+Lemma select_ge f path lazy s : List.length path <= cm s ->
+  lbp (S (S f)) path lazy PSelect s = lbp f path lazy PAfter s.
+Proof.
+  intros H. cbn [lbp]. pose proof H as H'. apply Nat.ltb_ge in H'. rewrite H'. reflexivity.
+Qed.
+
+Lemma select_child f path lazy s c x :
+  cm s < List.length path -> nth_error path (cm s) = Some c ->
+  first_child c (nchildren (cur s)) = Some x ->
+  param_child_index (cur s) = None -> wildcard_child_index (cur s) = None ->
+  lbp (S f) path lazy PSelect s = lbp f path lazy PWalk (descend s x).
+Proof.
+  intros Hlt Hc Hx Hp Hw. cbn [lbp]. apply Nat.ltb_lt in Hlt. rewrite Hlt, Hc.
+  pose proof (find_child_first (cur s) c) as Hf. destruct (find_child (cur s) c) as [j|].
+  - destruct Hf as [Hj _]. rewrite Hp, Hw, Hj, Hx. reflexivity.
+  - congruence.
+Qed.
+
+Lemma select_none f path lazy s c :
+  cm s < List.length path -> nth_error path (cm s) = Some c ->
+  first_child c (nchildren (cur s)) = None ->
+  param_child_index (cur s) = None -> wildcard_child_index (cur s) = None ->
+  tinv s ->
+  exists s', lbp (S f) path lazy PSelect s = lbp f path lazy PAfter s' /\ same_core s s' /\ tinv s'.
+Proof.
+  intros Hlt Hc Hx Hp Hw Ht. cbn [lbp]. apply Nat.ltb_lt in Hlt. rewrite Hlt, Hc.
+  pose proof (find_child_first (cur s) c) as Hf. destruct (find_child (cur s) c) as [j|].
+  - destruct Hf as [_ Hj]. congruence.
+  - match goal with |- context [if ?b then set_tsr lazy s (cur s) (ps s) else s] => destruct b end.
+    + change (cur (set_tsr lazy s (cur s) (ps s))) with (cur s). rewrite Hp, Hw.
+      eexists; split; [reflexivity|]. split; [apply set_tsr_core|apply set_tsr_tinv].
+    + rewrite Hp, Hw. eexists; split; [reflexivity|]. split; [apply same_core_refl|exact Ht].
+Qed.
+
+(* ------------------------------------------------------------------ *)
+(* the key walk on a static key                                        *)
+(* ------------------------------------------------------------------ *)
+(* kwalk k p = (number of bytes matched, false iff stopped on a mismatch) *)
+Fixpoint kwalk (k p : bytes) : nat * bool :=
+  match p with
+  | [] => (0, true)
+  | c :: p' =>
+    match k with
+    | [] => (0, true)
+    | d :: k' => if Ascii.eqb d c then let '(m, b) := kwalk k' p' in (S m, b) else (0, false)
+    end
+  end.
+
+Definition adv (s : st) (m : nat) : st :=
+  {| cur := cur s; par := par s; cm := m + cm s; cmn := m + cmn s; pcnt := pcnt s; pkc := pkc s; sks := sks s;
+     ps := ps s; tsr := tsr s; tn := tn s; tps := tps s |}.
+
+Lemma inner_static path lazy : forall kr pr i f s,
+  skipn i (nkey (cur s)) = kr -> skipn (cm s) path = pr -> sbytes kr = true ->
+  lbp (fst (kwalk kr pr) + 1 + f) path lazy (PInner i) s =
+  lbp f path lazy (if snd (kwalk kr pr) then PSelect else PAfter) (adv s (fst (kwalk kr pr))).
+Proof.
+  induction kr as [|k kr IH]; intros pr i f s Hk Hp Hs.
+  - (* key exhausted *)
+    destruct s as [cu pa cm0 cmn0 pc pk sk ps0 ts tn0 tp]. simpl in Hk, Hp.
+    apply skipn_nil_len in Hk.
+    assert (kwalk [] pr = (0, true)) as -> by (destruct pr; reflexivity).
+    cbn [fst snd plus adv cur par cm cmn pcnt pkc sks ps tsr tn tps].
+    cbn [lbp cur par cm cmn pcnt pkc sks ps tsr tn tps].
+    destruct (Nat.ltb cm0 (List.length path)); cbn [negb]; [|reflexivity].
+    apply Nat.ltb_ge in Hk. rewrite Hk. reflexivity.
+  - destruct pr as [|p pr].
+    + destruct s as [cu pa cm0 cmn0 pc pk sk ps0 ts tn0 tp]. simpl in Hk, Hp.
+      apply skipn_nil_len in Hp. apply Nat.ltb_ge in Hp.
+      cbn [kwalk fst snd plus adv cur par cm cmn pcnt pkc sks ps tsr tn tps].
+      cbn [lbp cur par cm cmn pcnt pkc sks ps tsr tn tps]. rewrite Hp. reflexivity.
+    + apply skipn_cons_nth in Hk. destruct Hk as (Hk1 & Hk2 & Hk3).
+      apply skipn_cons_nth in Hp. destruct Hp as (Hp1 & Hp2 & Hp3).
+      simpl in Hs. apply andb_prop in Hs. destruct Hs as [Hsk Hs].
+      cbn [kwalk]. destruct (Ascii.eqb k p) eqn:E.
+      * apply Ascii.eqb_eq in E. subst p.
+        specialize (IH pr (S i) f (adv s 1)).
+        destruct (kwalk kr pr) as [m b] eqn:Ekw. cbn [fst snd] in *.
+        replace (S m + 1 + f) with (S (m + 1 + f)) by lia.
+        cbn [lbp]. apply Nat.ltb_lt in Hk3, Hp3. rewrite Hp3, Hk3. cbn [negb].
+        rewrite Hk1, Hp1. rewrite Ascii.eqb_refl. cbn [negb orb].
+        unfold sbyte in Hsk. apply andb_prop in Hsk. destruct Hsk as [H1 H2].
+        apply negb_true_iff in H1, H2. rewrite H1, H2. cbn [orb].
+        change ({| cur := cur s; par := par s; cm := S (cm s); cmn := S (cmn s); pcnt := pcnt s; pkc := pkc s;
+                   sks := sks s; ps := ps s; tsr := tsr s; tn := tn s; tps := tps s |}) with (adv s 1).
+        rewrite IH; auto.
+        f_equal. unfold adv; simpl. f_equal; lia.
+      * cbn [fst snd plus]. cbn [lbp]. apply Nat.ltb_lt in Hk3, Hp3. rewrite Hp3, Hk3. cbn [negb].
+        rewrite Hk1, Hp1, E. cbn [negb orb].
+        unfold sbyte in Hsk. apply andb_prop in Hsk. destruct Hsk as [H1 H2].
+        apply negb_true_iff in H1, H2. rewrite H1, H2.
+        destruct s; reflexivity.
+Qed.
+
+(* ------------------------------------------------------------------ *)
+(* the static matcher: plain compressed-trie search                     *)
+(* ------------------------------------------------------------------ *)
+Fixpoint strip (k p : bytes) : option bytes :=
+  match k with
+  | [] => Some p
+  | d :: k' => match p with
+               | [] => None
+               | c :: p' => if Ascii.eqb d c then strip k' p' else None
+               end
+  end.
+
+Fixpoint smatch (n : node) (p : bytes) : option node :=
+  match n with
+  | Node k r ch =>
+    match strip k p with
+    | None => None
+    | Some [] => match r with Some _ => Some n | None => None end
+    | Some (c :: rest) =>
+        (fix go (l : list node) : option node :=
+           match l with
+           | [] => None
+           | x :: l' => if starts_with c (nkey x) then smatch x (c :: rest) else go l'
+           end) ch
+    end
+  end.
+
+Lemma smatch_eq k r ch p :
+  smatch (Node k r ch) p =
+  match strip k p with
+  | None => None
+  | Some [] => match r with Some _ => Some (Node k r ch) | None => None end
+  | Some (c :: rest) => match first_child c ch with Some x => smatch x (c :: rest) | None => None end
+  end.
+Proof.
+  cbn [smatch]. destruct (strip k p) as [[|c rest]|]; auto.
+  induction ch as [|x ch IH]; simpl; auto.
+  destruct (starts_with c (nkey x)); auto.
+Qed.
+
+Lemma kwalk_le k : forall p, fst (kwalk k p) <= List.length p.
+Proof.
+  induction k as [|d k IH]; intros [|c p]; simpl; try lia.
+  destruct (Ascii.eqb d c); simpl; [|lia].
+  specialize (IH p). destruct (kwalk k p); simpl in *. lia.
+Qed.
+
+Lemma kwalk_strip k : forall p,
+  match strip k p with
+  | Some rest => kwalk k p = (List.length k, true) /\ p = k ++ rest
+  | None => (snd (kwalk k p) = false /\ fst (kwalk k p) < List.length p)
+            \/ (snd (kwalk k p) = true /\ fst (kwalk k p) = List.length p /\ List.length p < List.length k)
+  end.
+Proof.
+  induction k as [|d k IH]; intros p.
+  - simpl. destruct p; auto.
+  - destruct p as [|c p]; simpl.
+    + right. repeat split; lia.
+    + destruct (Ascii.eqb_spec d c) as [->|Hn].
+      * specialize (IH p). destruct (strip k p) as [rest|].
+        -- destruct IH as [-> ->]. auto.
+        -- destruct (kwalk k p) as [m b]; simpl in *.
+           destruct IH as [[H1 H2]|(H1 & H2 & H3)]; [left|right]; repeat split; auto; lia.
+      * left. simpl. split; auto. lia.
+Qed.
+
+(* a result that is not a direct hit (and keeps the parameter list) *)
+Definition nodirect (r : lres) (ps0 : list kv) : Prop :=
+  exists tn' tsr' tps', r = Found tn' tsr' ps0 tps' /\ (tsr' = false -> tn' = None).
+
+Lemma fail_static f path lazy s :
+  sks s = [] -> tinv s ->
+  is_leaf (cur s) && Nat.eqb (cm s) (List.length path) && Nat.eqb (cmn s) (List.length (nkey (cur s))) = false ->
+  nodirect (lbp (S (S f)) path lazy PAfter s) (ps s).
+Proof.
+  intros Hsk Ht Hno. destruct (after_fail (S f) path lazy s Hno Ht) as (s' & -> & Hc & Ht' & _).
+  destruct Hc as (_ & _ & _ & _ & Hs & Hp). rewrite back_nil by congruence.
+  rewrite Hp. do 3 eexists. split; [reflexivity|exact Ht'].
+Qed.
+
+Lemma lbp_fuel_shape (a b : nat) : a <= b -> exists f, b = a + f.
+Proof. intros H. exists (b - a). lia. Qed.
+
+Lemma walk_static path lazy : forall n, stree n -> nkey n <> [] ->
+  forall fuel s, cur s = n -> sks s = [] -> cm s < List.length path -> tinv s ->
+  4 * (List.length path - cm s) + 6 <= fuel ->
+  match smatch n (skipn (cm s) path) with
+  | Some l => lbp fuel path lazy PWalk s = Found (Some l) false (ps s) (tps s)
+  | None => nodirect (lbp fuel path lazy PWalk s) (ps s)
+  end.
+Proof.
+  induction n as [k r ch IH] using node_ind'. intros Hst Hk fuel s Hcur Hsk Hlt Ht Hfuel.
+  apply stree_inv in Hst. destruct Hst as [Hsb Hch]. simpl in Hk.
+  set (pr := skipn (cm s) path).
+  assert (Hlen : List.length pr = List.length path - cm s) by apply skipn_length.
+  destruct fuel as [|f1]; [lia|]. rewrite walk_lt by exact Hlt.
+  match goal with |- context [lbp _ _ _ (PInner 0) ?x] => set (s0 := x) end.
+  pose proof (kwalk_le k pr) as Hle.
+  destruct (lbp_fuel_shape (fst (kwalk k pr) + 1) f1) as [f2 Hf2]; [lia|].
+  rewrite Hf2.
+  rewrite (inner_static path lazy k pr 0 f2 s0);
+    [| simpl; rewrite Hcur; reflexivity | reflexivity | exact Hsb].
+  rewrite smatch_eq. pose proof (kwalk_strip k pr) as Hks.
+  assert (Hc0 : cur s0 = Node k r ch) by exact Hcur.
+  assert (Hsk0 : sks s0 = []) by exact Hsk.
+  assert (Ht0 : tinv s0) by exact Ht.
+  destruct (strip k pr) as [rest|].
+  - destruct Hks as [Hkw Hpr]. rewrite Hkw in *. cbn [fst snd] in *.
+    assert (Hlk : List.length pr = List.length k + List.length rest) by (rewrite Hpr, app_length; reflexivity).
+    destruct rest as [|c rest].
+    + (* the path ends exactly at the end of the key *)
+      simpl in Hlk.
+      destruct f2 as [|[|f3]]; [lia|lia|].
+      rewrite select_ge by (simpl; lia).
+      destruct r as [rt|].
+      * destruct f3 as [|f4]; [lia|]. rewrite after_found.
+        -- simpl. rewrite Hcur. reflexivity.
+        -- simpl. rewrite Hcur. reflexivity.
+        -- simpl. lia.
+        -- simpl. rewrite Hcur. simpl. lia.
+      * destruct f3 as [|[|f4]]; [lia|lia|].
+        apply (fail_static f4 path lazy (adv s0 (List.length k))); auto.
+        simpl. rewrite Hcur. reflexivity.
+    + (* key consumed, path continues with c *)
+      simpl in Hlk.
+      assert (Hsk' : skipn (List.length k + cm s) path = c :: rest).
+      { rewrite <- skipn_skipn'. fold pr. rewrite Hpr. rewrite skipn_app, skipn_all, Nat.sub_diag. reflexivity. }
+      pose proof (skipn_cons_nth _ _ _ _ Hsk') as (Hn1 & _ & Hn3).
+      destruct (stree_no_param (Node k r ch)) as [Hnp Hnw]; [constructor; auto|].
+      destruct (first_child c ch) as [x|] eqn:Efc.
+      * destruct f2 as [|f3]; [lia|].
+        rewrite (select_child f3 path lazy (adv s0 (List.length k)) c x); simpl; try rewrite Hcur; auto.
+        apply first_child_in in Efc. destruct Efc as [Hin Hst].
+        rewrite Forall_forall in IH, Hch.
+        specialize (IH x Hin (Hch x Hin)).
+        assert (Hkx : nkey x <> []) by (destruct (nkey x); simpl in Hst; congruence).
+        specialize (IH Hkx f3 (descend (adv s0 (List.length k)) x) eq_refl Hsk).
+        simpl in IH. rewrite Hsk' in IH. apply IH; auto.
+        destruct k; [congruence|]. simpl in *. lia.
+      * destruct f2 as [|f3]; [lia|].
+        destruct (select_none f3 path lazy (adv s0 (List.length k)) c) as (s' & -> & Hc' & Ht');
+          simpl; try rewrite Hcur; auto.
+        destruct Hc' as (Hc1 & _ & Hc3 & _ & Hc5 & Hc6). simpl in *.
+        destruct f3 as [|[|f4]]; [lia|lia|].
+        rewrite <- Hc6. apply fail_static; auto; [congruence|].
+        rewrite Hc3. replace (Nat.eqb (List.length k + cm s) (List.length path)) with false
+          by (symmetry; apply Nat.eqb_neq; lia).
+        rewrite andb_false_r. reflexivity.
+  - destruct (kwalk k pr) as [m b]. cbn [fst snd] in *.
+    destruct Hks as [[-> Hm]|(-> & Hm & Hm2)].
+    + destruct f2 as [|[|f3]]; [lia|lia|].
+      apply (fail_static f3 path lazy (adv s0 m)); auto. simpl.
+      replace (Nat.eqb (m + cm s) (List.length path)) with false by (symmetry; apply Nat.eqb_neq; lia).
+      rewrite andb_false_r. reflexivity.
+    + destruct f2 as [|[|f3]]; [lia|lia|].
+      rewrite select_ge by (simpl; lia).
+      destruct f3 as [|[|f4]]; [lia|lia|].
+      apply (fail_static f4 path lazy (adv s0 m)); auto. simpl. rewrite Hcur. simpl.
+      replace (Nat.eqb (m + 0) (List.length k)) with false by (symmetry; apply Nat.eqb_neq; lia).
+      rewrite andb_false_r. reflexivity.
+Qed.
+
+(* ------------------------------------------------------------------ *)
+(* routes of a tree, structurally                                       *)
+(* ------------------------------------------------------------------ *)
+Definition opt_list {A} (o : option A) : list A := match o with Some x => [x] | None => [] end.
+
+Fixpoint routes_s (n : node) : list route :=
+  match n with Node _ r ch => opt_list r ++ flat_map routes_s ch end.
+
+Lemma height_child x ch :
+  In x ch -> node_height x <= fold_right (fun c acc => Nat.max (node_height c) acc) 0 ch.
+Proof.
+  induction ch as [|y ch IH]; simpl; [tauto|]. intros [->|H]; [lia|]. apply IH in H. lia.
+Qed.
+
+Lemma routes_pre_s : forall n f, node_height n <= f -> routes_pre f n = routes_s n.
+Proof.
+  induction n as [k r ch IH] using node_ind'. intros f Hf.
+  destruct f as [|f]; [simpl in Hf; lia|].
+  cbn [routes_pre routes_s nroute nchildren].
+  assert (flat_map (routes_pre f) ch = flat_map routes_s ch) as ->.
+  { cbn [node_height] in Hf. rewrite Forall_forall in IH.
+    assert (forall x, In x ch -> routes_pre f x = routes_s x) as Hx.
+    { intros x Hx. apply IH; auto. pose proof (height_child x ch Hx). lia. }
+    clear -Hx. induction ch as [|y ch IHc]; simpl; auto.
+    rewrite Hx by (left; reflexivity). f_equal. apply IHc. intros x Hin. apply Hx. right; exact Hin. }
+  destruct r; reflexivity.
+Qed.
+
+Lemma routes_of_node_s n : routes_of_node n = routes_s n.
+Proof. unfold routes_of_node. apply routes_pre_s. lia. Qed.
+
+(* ------------------------------------------------------------------ *)
+(* well-formed static trie                                              *)
+(* ------------------------------------------------------------------ *)
+(* pre = concatenation of the keys above the node *)
+Inductive swf : bytes -> node -> Prop :=
+| SWF pre k r ch :
+    k <> [] -> sbytes k = true ->
+    (forall rt, r = Some rt -> rpat rt = pre ++ k) ->
+    NoDup (map (fun c => hd_byte (nkey c)) ch) ->
+    Forall (swf (pre ++ k)) ch ->
+    swf pre (Node k r ch).
+
+Lemma swf_inv pre k r ch : swf pre (Node k r ch) ->
+  k <> [] /\ sbytes k = true /\ (forall rt, r = Some rt -> rpat rt = pre ++ k) /\
+  NoDup (map (fun c => hd_byte (nkey c)) ch) /\ Forall (swf (pre ++ k)) ch.
+Proof. inversion 1; subst; auto 6. Qed.
+
+Lemma swf_stree : forall n pre, swf pre n -> stree n.
+Proof.
+  induction n as [k r ch IH] using node_ind'. intros pre H.
+  apply swf_inv in H. destruct H as (_ & Hs & _ & _ & Hch). constructor; auto.
+  rewrite Forall_forall in *. intros x Hx. eapply IH; eauto.
+Qed.
+
+Lemma strip_app k : forall q, strip k (k ++ q) = Some q.
+Proof. induction k as [|d k IH]; intros q; simpl; auto. rewrite Ascii.eqb_refl. apply IH. Qed.
+
+Lemma strip_some k : forall p q, strip k p = Some q -> p = k ++ q.
+Proof. intros p q H. pose proof (kwalk_strip k p) as Hk. rewrite H in Hk. tauto. Qed.
+
+Lemma smatch_sound : forall n pre p l, swf pre n -> smatch n p = Some l ->
+  exists rt, nroute l = Some rt /\ rpat rt = pre ++ p /\ In rt (routes_s n).
+Proof.
+  induction n as [k r ch IH] using node_ind'. intros pre p l Hwf.
+  apply swf_inv in Hwf. destruct Hwf as (_ & _ & Hr & _ & Hch).
+  rewrite smatch_eq. destruct (strip k p) as [[|c rest]|] eqn:Es; try discriminate.
+  - apply strip_some in Es. rewrite app_nil_r in Es. subst p.
+    destruct r as [rt|]; [|discriminate]. intros [= <-]. exists rt. simpl. auto.
+  - apply strip_some in Es. subst p.
+    destruct (first_child c ch) as [x|] eqn:Ef; [|discriminate]. intros Hm.
+    apply first_child_in in Ef. destruct Ef as [Hin _].
+    rewrite Forall_forall in IH, Hch.
+    destruct (IH x Hin (pre ++ k) (c :: rest) l (Hch x Hin) Hm) as (rt & H1 & H2 & H3).
+    exists rt. split; auto. split; [rewrite H2, app_assoc; reflexivity|].
+    cbn [routes_s]. apply in_or_app. right. apply in_flat_map. exists x; auto.
+Qed.
+
+Lemma routes_prefix : forall n pre rt, swf pre n -> In rt (routes_s n) -> exists q, rpat rt = pre ++ nkey n ++ q.
+Proof.
+  induction n as [k r ch IH] using node_ind'. intros pre rt Hwf Hin.
+  apply swf_inv in Hwf. destruct Hwf as (_ & _ & Hr & _ & Hch).
+  cbn [routes_s] in Hin. apply in_app_or in Hin. destruct Hin as [Hin|Hin].
+  - destruct r as [r0|]; simpl in Hin; [|tauto]. destruct Hin as [<-|[]].
+    exists []. simpl. rewrite app_nil_r. apply Hr; reflexivity.
+  - apply in_flat_map in Hin. destruct Hin as (x & Hx & Hrt).
+    rewrite Forall_forall in IH, Hch.
+    destruct (IH x Hx (pre ++ k) rt (Hch x Hx) Hrt) as [q Hq].
+    exists (nkey x ++ q). simpl. rewrite Hq, <- app_assoc. reflexivity.
+Qed.
+
+Lemma first_child_nodup c : forall l x,
+  NoDup (map (fun y => hd_byte (nkey y)) l) -> In x l -> hd_byte (nkey x) = Some c ->
+  first_child c l = Some x.
+Proof.
+  induction l as [|y l IH]; intros x Hnd Hin Hc; simpl in *; [tauto|].
+  inversion Hnd as [|? ? Hni Hnd']; subst.
+  destruct Hin as [->|Hin].
+  - destruct (nkey x) as [|d kx]; simpl in *; [discriminate|]. inversion Hc; subst. rewrite Ascii.eqb_refl. reflexivity.
+  - destruct (starts_with c (nkey y)) eqn:E.
+    + exfalso. apply Hni. apply in_map_iff. exists x. split; auto.
+      rewrite Hc. destruct (nkey y) as [|d ky]; simpl in *; [discriminate|].
+      apply Ascii.eqb_eq in E. subst; reflexivity.
+    + apply IH; auto.
+Qed.
+
+Lemma smatch_complete : forall n pre p rt, swf pre n -> In rt (routes_s n) -> rpat rt = pre ++ p ->
+  exists l, smatch n p = Some l /\ nroute l = Some rt.
+Proof.
+  induction n as [k r ch IH] using node_ind'. intros pre p rt Hwf Hin Hp.
+  pose proof Hwf as Hwf0.
+  apply swf_inv in Hwf. destruct Hwf as (_ & _ & Hr & Hnd & Hch).
+  rewrite smatch_eq.
+  cbn [routes_s] in Hin. apply in_app_or in Hin. destruct Hin as [Hin|Hin].
+  - destruct r as [r0|]; simpl in Hin; [|tauto]. destruct Hin as [<-|[]].
+    rewrite (Hr r0 eq_refl) in Hp. apply app_inv_head in Hp. subst p.
+    replace (strip k k) with (strip k (k ++ [])) by (rewrite app_nil_r; reflexivity). rewrite strip_app. eexists; split; reflexivity.
+  - apply in_flat_map in Hin. destruct Hin as (x & Hx & Hrt).
+    rewrite Forall_forall in IH, Hch.
+    destruct (routes_prefix x (pre ++ k) rt (Hch x Hx) Hrt) as [q Hq].
+    rewrite Hp, <- app_assoc in Hq. apply app_inv_head in Hq. subst p.
+    rewrite strip_app.
+    pose proof (Hch x Hx) as Hwx. destruct x as [kx rx cx]. pose proof Hwx as Hwx0.
+    apply swf_inv in Hwx. destruct Hwx as (Hkx & _). simpl in *.
+    destruct kx as [|c kx]; [congruence|]. simpl.
+    rewrite (first_child_nodup c ch (Node (c :: kx) rx cx)); auto.
+    apply (IH _ Hx (pre ++ k)); auto. rewrite Hp, <- app_assoc. reflexivity.
+Qed.
+
+(* ------------------------------------------------------------------ *)
+(* S on static patterns: exact string membership                        *)
+(* ------------------------------------------------------------------ *)
+Lemma tokenize_step c r f : sbyte c = true -> tokenize_fuel (S f) (c :: r) = TStatic c :: tokenize_fuel f r.
+Proof.
+  intros H. destruct c as [[] [] [] [] [] [] [] []]; try reflexivity; simpl in H; discriminate.
+Qed.
+
+Lemma tokenize_fuel_static : forall s f, sbytes s = true -> List.length s <= f -> tokenize_fuel f s = map TStatic s.
+Proof.
+  induction s as [|c s IH]; intros f Hs Hf.
+  - destruct f; reflexivity.
+  - destruct f as [|f]; [simpl in Hf; lia|]. simpl in Hs. apply andb_prop in Hs. destruct Hs as [Hc Hs].
+    rewrite tokenize_step by exact Hc. simpl. f_equal. apply IH; auto. simpl in Hf. lia.
+Qed.
+
+Lemma tokenize_static s : sbytes s = true -> tokenize s = map TStatic s.
+Proof. intros H. apply tokenize_fuel_static; auto. Qed.
+
+(* a candidate whose remaining tokens are all static *)
+Definition scand (k : cand) : Prop := exists suf, toks k = map TStatic suf.
+
+Lemma adv_param_static cs : Forall scand cs -> adv_param cs = [].
+Proof.
+  induction 1 as [|k cs [suf Hk] _ IH]; simpl; auto. rewrite IH, Hk. destruct suf; reflexivity.
+Qed.
+Lemma adv_catch_static cs : Forall scand cs -> adv_catch cs = [].
+Proof.
+  induction 1 as [|k cs [suf Hk] _ IH]; simpl; auto. rewrite IH, Hk. destruct suf; reflexivity.
+Qed.
+
+Lemma adv_static_in c cs k' :
+  In k' (adv_static c cs) <-> exists k, In k cs /\ toks k = TStatic c :: toks k' /\ pat k' = pat k.
+Proof.
+  unfold adv_static. rewrite in_flat_map. split.
+  - intros (k & Hin & Hk). exists k. split; auto.
+    destruct (toks k) as [|[d|n|n] t]; simpl in Hk; try tauto.
+    destruct (Ascii.eqb_spec c d); simpl in Hk; [|tauto]. destruct Hk as [<-|[]]. subst. auto.
+  - intros (k & Hin & Ht & Hp). exists k. split; auto. rewrite Ht, Ascii.eqb_refl. left.
+    destruct k'; simpl in *. subst; reflexivity.
+Qed.
+
+Lemma adv_static_scand c cs : Forall scand cs -> Forall scand (adv_static c cs).
+Proof.
+  intros H. rewrite Forall_forall in *. intros k' Hk'. apply adv_static_in in Hk'.
+  destruct Hk' as (k & Hin & Ht & _). destruct (H k Hin) as [suf Hs]. rewrite Hs in Ht.
+  destruct suf as [|d suf]; simpl in Ht; [discriminate|]. inversion Ht. exists suf; auto.
+Qed.
+
+Lemma select_static_step fuel cs c r vals : Forall scand cs ->
+  select (S fuel) cs (c :: r) 0 vals =
+  if Ascii.eqb c "{" || Ascii.eqb c "*" then None
+  else match adv_static c cs with [] => None | cs' => select fuel cs' r 0 vals end.
+Proof.
+  intros H. cbn [select]. rewrite adv_param_static, adv_catch_static by exact H.
+  cbn [Nat.eqb negb pred]. unfold orelse.
+  destruct (Ascii.eqb c "{" || Ascii.eqb c "*"); auto.
+  destruct (adv_static c cs) eqn:E; auto. destruct (select fuel (c0 :: l) r 0 vals); auto.
+Qed.
+
+Lemma select_static_sound : forall fuel cs s vals p vs, Forall scand cs ->
+  select fuel cs s 0 vals = Some (p, vs) ->
+  exists k, In k cs /\ pat k = p /\ toks k = map TStatic s /\ vs = rev vals.
+Proof.
+  induction fuel as [|fuel IH]; intros cs s vals p vs Hsc; [discriminate|].
+  destruct s as [|c r].
+  - cbn [select]. unfold leaf.
+    destruct (filter (fun k => match toks k with [] => true | _ => false end) cs) as [|k l] eqn:E; [discriminate|].
+    intros [= <- <-]. assert (In k (k :: l)) as Hin by (left; reflexivity). rewrite <- E in Hin.
+    apply filter_In in Hin. destruct Hin as [Hin Ht]. exists k. repeat split; auto.
+    destruct (toks k); [reflexivity|discriminate].
+  - rewrite select_static_step by exact Hsc.
+    destruct (Ascii.eqb c "{" || Ascii.eqb c "*"); [discriminate|].
+    destruct (adv_static c cs) as [|k0 l] eqn:E; [discriminate|]. rewrite <- E. intros Hsel.
+    apply IH in Hsel; [|apply adv_static_scand; exact Hsc].
+    destruct Hsel as (k' & Hin & Hp & Ht & Hv). apply adv_static_in in Hin.
+    destruct Hin as (k & Hin & Htk & Hpk). exists k. repeat split; auto; [congruence|].
+    rewrite Htk, Ht. reflexivity.
+Qed.
+
+Lemma select_static_complete : forall fuel cs s vals k, Forall scand cs ->
+  In k cs -> toks k = map TStatic s -> sbytes s = true -> List.length s < fuel ->
+  exists p, select fuel cs s 0 vals = Some (p, rev vals).
+Proof.
+  induction fuel as [|fuel IH]; intros cs s vals k Hsc Hin Ht Hs Hf; [lia|].
+  destruct s as [|c r].
+  - cbn [select]. unfold leaf.
+    destruct (filter (fun k => match toks k with [] => true | _ => false end) cs) as [|k1 l] eqn:E.
+    + exfalso. assert (In k (filter (fun k => match toks k with [] => true | _ => false end) cs)) as H.
+      { apply filter_In. split; auto. rewrite Ht. reflexivity. }
+      rewrite E in H. exact H.
+    + eexists; reflexivity.
+  - rewrite select_static_step by exact Hsc.
+    simpl in Hs. apply andb_prop in Hs. destruct Hs as [Hc Hs].
+    unfold sbyte in Hc. apply andb_prop in Hc. destruct Hc as [H1 H2]. apply negb_true_iff in H1, H2.
+    rewrite H1, H2. cbn [orb].
+    assert (In {| pat := pat k; toks := map TStatic r |} (adv_static c cs)) as Hin'.
+    { apply adv_static_in. exists k. repeat split; auto. }
+    destruct (adv_static c cs) as [|k0 l] eqn:E; [destruct Hin'|]. rewrite <- E in *.
+    eapply IH; eauto; [apply adv_static_scand; exact Hsc|simpl in Hf; lia].
+Qed.
+
+Lemma map_TStatic_inj : forall a b, map TStatic a = map TStatic b -> a = b.
+Proof.
+  induction a as [|x a IH]; intros [|y b] H; simpl in H; try discriminate; auto.
+  inversion H; subst. f_equal; auto.
+Qed.
+
+(* on static patterns S is exact string membership *)
+Theorem select_in_static pats host path :
+  Forall (fun p => sbytes p = true /\ is_path_pattern p = true) pats ->
+  select_in pats host path false = if existsb (bytes_eqb path) pats then Some (path, []) else None.
+Proof.
+  intros Hp. unfold select_in.
+  assert (filter (fun p => is_path_pattern p) pats = pats) as ->.
+  { induction Hp as [|p l [_ Hpp] _ IH]; simpl; auto. rewrite Hpp, IH. reflexivity. }
+  assert (Forall scand (map mk_cand pats)) as Hsc.
+  { rewrite Forall_forall in *. intros k Hk. apply in_map_iff in Hk. destruct Hk as (p & <- & Hin).
+    exists p. simpl. apply tokenize_static. apply Hp; auto. }
+  destruct (existsb (bytes_eqb path) pats) eqn:Ex.
+  - apply existsb_exists in Ex. destruct Ex as (p & Hin & Heq). apply bytes_eqb_eq in Heq. subst p.
+    rewrite Forall_forall in Hp. destruct (Hp path Hin) as [Hs _].
+    destruct (select_static_complete (spec_fuel host path) (map mk_cand pats) path [] (mk_cand path)) as [p Hsel]; auto.
+    + apply in_map; exact Hin.
+    + simpl. apply tokenize_static; exact Hs.
+    + unfold spec_fuel. rewrite app_length || idtac. lia.
+    + rewrite Hsel. simpl. destruct (select_static_sound _ _ _ _ _ _ Hsc Hsel) as (k & Hk & Hpk & Htk & _).
+      apply in_map_iff in Hk. destruct Hk as (q & <- & Hq). simpl in *. subst q.
+      rewrite tokenize_static in Htk by (apply Hp; auto). apply map_TStatic_inj in Htk. subst. reflexivity.
+  - destruct (select (spec_fuel host path) (map mk_cand pats) path 0 []) as [[p vs]|] eqn:Hsel; auto.
+    exfalso. destruct (select_static_sound _ _ _ _ _ _ Hsc Hsel) as (k & Hk & Hpk & Htk & _).
+    apply in_map_iff in Hk. destruct Hk as (q & <- & Hq). simpl in *.
+    rewrite Forall_forall in Hp. rewrite tokenize_static in Htk by (apply Hp; auto).
+    apply map_TStatic_inj in Htk. subst q.
+    assert (existsb (bytes_eqb path) pats = true) as Hc.
+    { apply existsb_exists. exists path. split; auto. apply bytes_eqb_refl. }
+    congruence.
+Qed.
+
+(* ------------------------------------------------------------------ *)
+(* stage 1: M1 on a static trie                                         *)
+(* ------------------------------------------------------------------ *)
+Definition static_fuel (path : bytes) : nat := 4 * List.length path + 6.
+
+Theorem lbp_static_char t path lazy ps0 tps0 fuel : swf [] t -> static_fuel path <= fuel ->
+  match smatch t path with
+  | Some l => lookup_by_path fuel t path lazy ps0 tps0 = Found (Some l) false ps0 tps0
+  | None => nodirect (lookup_by_path fuel t path lazy ps0 tps0) ps0
+  end.
+Proof.
+  intros Hwf Hf. unfold lookup_by_path, static_fuel in *.
+  pose proof (swf_stree _ _ Hwf) as Hst.
+  destruct t as [k r ch]. pose proof (swf_inv _ _ _ _ Hwf) as (Hk & _).
+  destruct path as [|c path].
+  - rewrite smatch_eq. destruct k as [|d k]; [congruence|]. simpl strip. cbv iota.
+    destruct fuel as [|[|[|f]]]; try (simpl in Hf; lia).
+    rewrite walk_ge by (simpl; lia).
+    apply (fail_static f [] lazy (init_st (Node (d :: k) r ch) ps0 tps0)); simpl; auto.
+    + unfold tinv; simpl; auto.
+    + rewrite andb_false_r. reflexivity.
+  - pose proof (walk_static (c :: path) lazy (Node k r ch) Hst Hk fuel
+                  (init_st (Node k r ch) ps0 tps0) eq_refl eq_refl) as H.
+    simpl skipn in H. apply H.
+    + simpl. lia.
+    + unfold tinv; simpl; auto.
+    + simpl cm. simpl in Hf |- *. lia.
+Qed.
+
+(* (a) soundness *)
+Theorem lbp_static_sound t path lazy fuel n tp pss tpss :
+  swf [] t -> static_fuel path <= fuel ->
+  lookup_by_path fuel t path lazy [] [] = Found (Some n) tp pss tpss -> tp = false ->
+  exists rt, nroute n = Some rt /\ In rt (routes_of_node t) /\ rpat rt = path /\ pss = [].
+Proof.
+  intros Hwf Hf Hl ->. pose proof (lbp_static_char t path lazy [] [] fuel Hwf Hf) as H.
+  destruct (smatch t path) as [l|] eqn:Em.
+  - rewrite H in Hl. inversion Hl; subst.
+    destruct (smatch_sound _ _ _ _ Hwf Em) as (rt & H1 & H2 & H3).
+    exists rt. rewrite routes_of_node_s. auto.
+  - destruct H as (tn' & tsr' & tps' & He & Hi). rewrite He in Hl. inversion Hl; subst.
+    specialize (Hi eq_refl). discriminate.
+Qed.
+
+(* (b) completeness, with the closed-form fuel bound *)
+Theorem lbp_static_complete t path lazy fuel rt :
+  swf [] t -> static_fuel path <= fuel ->
+  In rt (routes_of_node t) -> rpat rt = path ->
+  exists n, lookup_by_path fuel t path lazy [] [] = Found (Some n) false [] [] /\ nroute n = Some rt.
+Proof.
+  intros Hwf Hf Hin Hp. rewrite routes_of_node_s in Hin.
+  destruct (smatch_complete t [] path rt Hwf Hin Hp) as (l & Hm & Hr).
+  pose proof (lbp_static_char t path lazy [] [] fuel Hwf Hf) as H. rewrite Hm in H.
+  exists l. auto.
+Qed.
+
+(* never Panic / OutOfFuel, and the skipped-node stack is never used: every result is a Found *)
+Theorem lbp_static_total t path lazy fuel ps0 tps0 :
+  swf [] t -> static_fuel path <= fuel ->
+  exists n tp pss tpss, lookup_by_path fuel t path lazy ps0 tps0 = Found n tp pss tpss.
+Proof.
+  intros Hwf Hf. pose proof (lbp_static_char t path lazy ps0 tps0 fuel Hwf Hf) as H.
+  destruct (smatch t path).
+  - rewrite H. do 4 eexists; reflexivity.
+  - destruct H as (a & b & c & -> & _). do 4 eexists; reflexivity.
+Qed.
+
+(* (c) M1 = S, direct matches *)
+Definition direct_obs (r : lres) : option (bytes * list kv) :=
+  match r with
+  | Found (Some n) false pss _ => match nroute n with Some rt => Some (rpat rt, pss) | None => None end
+  | _ => None
+  end.
+
+Definition spec_direct (pats : list bytes) (host path : bytes) : option (bytes * list kv) :=
+  match select_in pats host path false with
+  | Some (p, vals) => Some (p, name_values p vals)
+  | None => None
+  end.
+
+Lemma swf_routes_static : forall n pre rt, swf pre n -> In rt (routes_s n) -> sbytes pre = true -> sbytes (rpat rt) = true.
+Proof.
+  induction n as [k r ch IH] using node_ind'. intros pre rt Hwf Hin Hpre.
+  apply swf_inv in Hwf. destruct Hwf as (_ & Hs & Hr & _ & Hch).
+  assert (sbytes (pre ++ k) = true) as Hpk by (unfold sbytes; rewrite forallb_app; apply andb_true_intro; auto).
+  cbn [routes_s] in Hin. apply in_app_or in Hin. destruct Hin as [Hin|Hin].
+  - destruct r as [r0|]; simpl in Hin; [|tauto]. destruct Hin as [<-|[]]. rewrite (Hr r0 eq_refl). exact Hpk.
+  - apply in_flat_map in Hin. destruct Hin as (x & Hx & Hrt). rewrite Forall_forall in IH, Hch.
+    eapply IH; eauto.
+Qed.
+
+Theorem lbp_static_eq_spec t host path lazy fuel :
+  swf [] t -> starts_with "/" (nkey t) = true -> static_fuel path <= fuel ->
+  direct_obs (lookup_by_path fuel t path lazy [] []) = spec_direct (map rpat (routes_of_node t)) host path.
+Proof.
+  intros Hwf Hsl Hf. unfold spec_direct. rewrite select_in_static.
+  - pose proof (lbp_static_char t path lazy [] [] fuel Hwf Hf) as H.
+    destruct (smatch t path) as [l|] eqn:Em.
+    + rewrite H. destruct (smatch_sound _ _ _ _ Hwf Em) as (rt & H1 & H2 & H3). simpl in H2.
+      simpl. rewrite H1, H2.
+      assert (existsb (bytes_eqb path) (map rpat (routes_of_node t)) = true) as ->.
+      { apply existsb_exists. exists path. split; [|apply bytes_eqb_refl].
+        rewrite routes_of_node_s. apply in_map_iff. exists rt; auto. }
+      unfold name_values. destruct (wildcard_names (tokenize path)); reflexivity.
+    + destruct H as (a & b & c & -> & Hi).
+      destruct (existsb (bytes_eqb path) (map rpat (routes_of_node t))) eqn:Ex.
+      * exfalso. apply existsb_exists in Ex. destruct Ex as (p & Hin & Heq). apply bytes_eqb_eq in Heq. subst p.
+        apply in_map_iff in Hin. destruct Hin as (rt & Hp & Hin). rewrite routes_of_node_s in Hin.
+        destruct (smatch_complete t [] path rt Hwf Hin Hp) as (l & Hm & _). congruence.
+      * simpl. destruct a as [n|]; auto. destruct b; auto. specialize (Hi eq_refl). discriminate.
+  - rewrite Forall_forall. intros p Hp. apply in_map_iff in Hp. destruct Hp as (rt & <- & Hin).
+    rewrite routes_of_node_s in Hin. split.
+    + eapply swf_routes_static; eauto.
+    + destruct (routes_prefix t [] rt Hwf Hin) as [q Hq]. rewrite Hq. simpl.
+      destruct (nkey t) as [|d kk]; simpl in *; [discriminate|]. apply Ascii.eqb_eq in Hsl. subst d. reflexivity.
+Qed.
+
+(* ------------------------------------------------------------------ *)
+(* boolean checker for swf (used by the non-vacuity examples)           *)
+(* ------------------------------------------------------------------ *)
+Definition oa_eqb (a b : option ascii) : bool := opt_eqb Ascii.eqb a b.
+Lemma oa_eqb_eq a b : oa_eqb a b = true <-> a = b.
+Proof.
+  destruct a as [x|], b as [y|]; simpl; split; try congruence; try tauto.
+  - intros H. apply Ascii.eqb_eq in H. congruence.
+  - intros [= ->]. apply Ascii.eqb_refl.
+Qed.
+
+Fixpoint nodupb (l : list (option ascii)) : bool :=
+  match l with [] => true | x :: r => negb (existsb (oa_eqb x) r) && nodupb r end.
+Lemma nodupb_sound l : nodupb l = true -> NoDup l.
+Proof.
+  induction l as [|x l IH]; simpl; [constructor|]. intros H. apply andb_prop in H. destruct H as [H1 H2].
+  constructor; auto. intros Hin. apply negb_true_iff in H1.
+  assert (existsb (oa_eqb x) l = true) as Hc; [|congruence].
+  apply existsb_exists. exists x. split; auto. apply oa_eqb_eq; reflexivity.
+Qed.
+
+Fixpoint swfb (pre : bytes) (n : node) : bool :=
+  match n with
+  | Node k r ch =>
+      negb (Spec.is_nil k) && sbytes k
+      && match r with Some rt => bytes_eqb (rpat rt) (pre ++ k) | None => true end
+      && nodupb (map (fun c => hd_byte (nkey c)) ch)
+      && forallb (swfb (pre ++ k)) ch
+  end.
+
+Lemma swfb_sound : forall n pre, swfb pre n = true -> swf pre n.
+Proof.
+  induction n as [k r ch IH] using node_ind'. intros pre H. cbn [swfb] in H.
+  repeat (apply andb_prop in H; destruct H as [H ?]).
+  constructor; auto.
+  - destruct k; [discriminate|congruence].
+  - intros rt ->. apply bytes_eqb_eq; auto.
+  - apply nodupb_sound; auto.
+  - rewrite Forall_forall in *. intros x Hx. apply IH; auto.
+    match goal with Hf : forallb _ ch = true |- _ => rewrite forallb_forall in Hf; apply Hf; auto end.
+Qed.
+
+(* building example trees with Tree.insert *)
+Definition mk_ri (p : string) (id : N) (npar : nat) : rinfo :=
+  {| ri_route := {| rpat := S2B p; rid := id |}; ri_pslen := npar; ri_hostsplit := 0 |}.
+Definition build (l : list rinfo) : txn :=
+  fold_left (fun t ri => match insert t m_get ri with ROk t' => t' | _ => t end) l empty_txn.
+Definition path_root (t : txn) : node :=
+  match t_roots t with
+  | r :: _ => match nchildren r with c :: _ => c | [] => Node [] None [] end
+  | [] => Node [] None []
+  end.
+
+(* ------------------------------------------------------------------ *)
+(* lifting to roots.lookup / spec_lookup for a path-only method tree     *)
+(* ------------------------------------------------------------------ *)
+Definition sres_direct (r : sres) : option (bytes * list kv) :=
+  match r with SDirect p pss => Some (p, pss) | _ => None end.
+
+(* the method root has no route and exactly one child, the "/"-subtree t *)
+Definition path_only_root (r : roots) (m : bytes) (t : node) : Prop :=
+  exists i root, method_index r m = Some i /\ nth_error r i = Some root /\
+                 nroute root = None /\ nchildren root = [t] /\ starts_with "/" (nkey t) = true.
+
+Lemma roots_lookup_path_only fuel r m host path lazy ps0 tps0 t :
+  path_only_root r m t ->
+  roots_lookup fuel r m host path lazy ps0 tps0 = lookup_by_path fuel t path lazy ps0 tps0.
+Proof.
+  intros (i & root & H1 & H2 & _ & H4 & H5). unfold roots_lookup. rewrite H1, H2, H4, H5. reflexivity.
+Qed.
+
+Lemma method_patterns_path_only r m t :
+  path_only_root r m t -> Corr.method_patterns r m = map rpat (routes_of_node t).
+Proof.
+  intros (i & root & H1 & H2 & H3 & H4 & _). unfold Corr.method_patterns. rewrite H1, H2.
+  rewrite !routes_of_node_s. destruct root as [k rr ch]. simpl in *. subst. simpl. rewrite app_nil_r. reflexivity.
+Qed.
+
+Lemma spec_lookup_direct_path_only pats host path :
+  Forall (fun p => is_path_pattern p = true) pats ->
+  sres_direct (spec_lookup pats host path) = spec_direct pats host path.
+Proof.
+  intros H. unfold spec_lookup, spec_direct.
+  assert (filter (fun p => negb (is_path_pattern p)) pats = []) as ->.
+  { induction H as [|p l Hp _ IH]; simpl; auto. rewrite Hp. simpl. exact IH. }
+  unfold Spec.is_nil at 1. cbn [negb andb].
+  destruct (select_in pats host path false) as [[p vals]|]; [reflexivity|].
+  destruct (select_tsr_in pats host path false) as [[p vals]|]; reflexivity.
+Qed.
+
+Lemma swf_routes_path t : swf [] t -> starts_with "/" (nkey t) = true ->
+  Forall (fun p => is_path_pattern p = true) (map rpat (routes_of_node t)).
+Proof.
+  intros Hwf Hsl. rewrite Forall_forall. intros p Hp. apply in_map_iff in Hp. destruct Hp as (rt & <- & Hin).
+  rewrite routes_of_node_s in Hin. destruct (routes_prefix t [] rt Hwf Hin) as [q Hq]. rewrite Hq. simpl.
+  destruct (nkey t) as [|d kk]; simpl in *; [discriminate|]. apply Ascii.eqb_eq in Hsl. subst d. reflexivity.
+Qed.
+
+Theorem roots_lookup_static_eq_spec r m t host path lazy fuel :
+  path_only_root r m t -> swf [] t -> static_fuel path <= fuel ->
+  direct_obs (roots_lookup fuel r m host path lazy [] []) =
+  sres_direct (spec_lookup (Corr.method_patterns r m) host path).
+Proof.
+  intros Hr Hwf Hf. rewrite (roots_lookup_path_only _ _ _ _ _ _ _ _ t Hr), (method_patterns_path_only _ _ t Hr).
+  destruct Hr as (i & root & _ & _ & _ & _ & Hsl).
+  rewrite spec_lookup_direct_path_only by (apply swf_routes_path; auto).
+  apply lbp_static_eq_spec; auto.
+Qed.
